@@ -254,7 +254,7 @@ var enumWords = []string{"up", "down", "one", "two", "three", "testing", "unknow
 
 // exotic but legal enum names: every character is one ygot's sanitiser handles (gogen/helpers.go),
 // and no two of them sanitise to the same Go identifier.
-var enumExotic = []string{"x.y", "10g", "a b", "c+d", "e/f", "UP-LINK", "g:h", "i@j", "k*", "m,n"}
+var enumExotic = []string{"x.y", "10g", "a b", "c+d", "e/f", "UP-LINK", "g:h", "i@j", "k*", "m,n", "µs", "Ω1", "é2"}
 
 func (g *gen) drawEnum(label string) *typ {
 	n := g.intn(2, 4, label+"-n")
